@@ -12,9 +12,15 @@ import (
 	"encoding/json"
 	"flag"
 	"fmt"
+	"go/ast"
+	"go/importer"
+	"go/parser"
+	"go/token"
 	"go/types"
 	"os"
+	"path/filepath"
 	"strings"
+	"time"
 
 	"verif/harness/internal/filt"
 	"verif/harness/internal/hutil"
@@ -29,7 +35,10 @@ const decls = `package target
 import (
 	"fmt"
 	"strings"
+	"unsafe"
 )
+
+var _ = unsafe.Sizeof(0)
 
 type S struct {
 	a int
@@ -53,6 +62,21 @@ const ci = 5
 
 func f1() int                  { return gi }
 func fn(a int) (int, error)    { return a, nil }
+func takeFn(f func(int), v int) {}
+func idG[T any](v T) T         { return v }
+
+type MyStr string
+type FV func(int) string
+
+var gfv FV
+var gm map[string]int
+var gbs []byte
+
+type PS struct{}
+
+func (*PS) Take(int) {}
+func (PS) Get() int   { return 0 }
+func (Str) Take(int)  {}
 
 var _ = fmt.Sprint
 var _ = strings.ToUpper
@@ -70,31 +94,55 @@ var stmtSites = [][]string{
 	{"switch {}"}, {";"},
 }
 
-func target() string {
+// header: declarations and the probe functions (the function declarations are sites themselves)
+func header() string {
 	var sb strings.Builder
 	sb.WriteString(decls)
 	for j := 0; j < W; j++ {
 		fmt.Fprintf(&sb, "func p%d(args ...interface{}) {}\nfunc q%d() bool { return gb }\n", j, j)
-		fmt.Fprintf(&sb, "func r%d() int { return gi }\n", j)
+		fmt.Fprintf(&sb, "func r%d() int { return gi }\nfunc rs%d() string { return gs }\n", j, j)
 		fmt.Fprintf(&sb, "func fa%d() {}\nfunc fb%d() (int, error) { return 0, nil }\nfunc fc%d(a int, b ...string) (r int) { return a }\nfunc fd%d(int, string) {}\n", j, j, j, j)
 	}
-	sb.WriteString("\nfunc sites[T any, U ~int64](t T, u U, vs ...string) {\n")
+	return sb.String()
+}
+
+const sitesOpen = "\nfunc sites[T any, U ~int64](t T, u U, vs ...string) {\n"
+
+// siteSnippets: the probe sites of column j, each a statement sequence that is valid on its own inside sites()
+func siteSnippets(j int) []string {
+	var out []string
+	for _, e := range exprSites {
+		out = append(out, fmt.Sprintf("\tp%d(%s)\n", j, e))
+	}
+	for _, l := range listSites {
+		out = append(out, fmt.Sprintf("\tp%d(%s)\n", j, strings.Join(l, ", ")))
+	}
+	for _, st := range stmtSites {
+		out = append(out, fmt.Sprintf("\tif q%d() {\n\t\t%s\n\t}\n", j, strings.Join(st, "\n\t\t")))
+	}
+	for _, ctx := range sinkCtxs {
+		out = append(out, fmt.Sprintf("\t"+ctx+"\n", fmt.Sprintf("r%d()", j)))
+	}
+	for _, ctx := range strSinkCtxs {
+		out = append(out, fmt.Sprintf("\t"+ctx+"\n", fmt.Sprintf("rs%d()", j)))
+	}
+	for _, ctx := range intBuiltinCtxs {
+		out = append(out, fmt.Sprintf("\t"+strings.ReplaceAll(ctx, "%s", "%[1]s")+"\n", fmt.Sprintf("r%d()", j)))
+	}
+	out = append(out, fmt.Sprintf("\tvar w%d []int\n\t_ = w%d\n\tvar ww%d, www%d map[string]S\n\t_, _ = ww%d, www%d\n", j, j, j, j, j, j))
+	// comments for the MatchComment shapes: a named group that captures, one that captures nothing, no group, a block comment
+	out = append(out, fmt.Sprintf("\t// ca%d: alpha beta\n\t// cb%d: tail\n\t// cc%d marker\n\t/* cd%d: block\n\t   comment */\n\t_ = gi // ce%d: trailing gi\n", j, j, j, j, j))
+	return out
+}
+
+func target() string {
+	var sb strings.Builder
+	sb.WriteString(header())
+	sb.WriteString(sitesOpen)
 	for j := 0; j < W; j++ {
-		for _, e := range exprSites {
-			fmt.Fprintf(&sb, "\tp%d(%s)\n", j, e)
+		for _, sn := range siteSnippets(j) {
+			sb.WriteString(sn)
 		}
-		for _, l := range listSites {
-			fmt.Fprintf(&sb, "\tp%d(%s)\n", j, strings.Join(l, ", "))
-		}
-		for _, st := range stmtSites {
-			fmt.Fprintf(&sb, "\tif q%d() {\n\t\t%s\n\t}\n", j, strings.Join(st, "\n\t\t"))
-		}
-		for _, ctx := range sinkCtxs {
-			fmt.Fprintf(&sb, "\t"+ctx+"\n", fmt.Sprintf("r%d()", j))
-		}
-		fmt.Fprintf(&sb, "\tvar w%d []int\n\t_ = w%d\n\tvar ww%d, www%d map[string]S\n\t_, _ = ww%d, www%d\n", j, j, j, j, j, j)
-		// comments for the MatchComment shapes: a named group that captures, one that captures nothing, no group, a block comment
-		fmt.Fprintf(&sb, "\t// ca%d: alpha beta\n\t// cb%d: tail\n\t// cc%d marker\n\t/* cd%d: block\n\t   comment */\n\t_ = gi // ce%d: trailing gi\n", j, j, j, j, j)
 	}
 	sb.WriteString("}\n")
 	return sb.String()
@@ -106,6 +154,29 @@ var sinkCtxs = []string{
 	"_ = []int{%s}", "_ = [...]int{2: %s}", "gi = %s", "gi, gs = %s, \"a\"", "var _ int = %s", "var _ = %s", "_ = gsl[%s]", "_ = int64(%s)", "p0(%s)", "p0(1, %s)",
 	"_ = fmt.Sprint(%s)", "_ = (%s)", "_ = %s + 1", "%s", "gch <- %s", "_ = len(gsl[:%s])", "_ = struct{ a, b int }{%s, 2}", "_ = func() int { return %s }",
 	"_ = new(int) == &gsl[%s]", "_ = append(gsl, %s)", "_ = [2]S{{a: %s}}",
+}
+
+// contexts of a string-valued whole match: builtins and conversions whose recorded signatures are special
+// (append([]byte, s...), copy([]byte, s)), spread arguments, and the rest of the builtin family
+var strSinkCtxs = []string{
+	"gbs = append(gbs, %s...)", "_ = append([]byte(\"x\"), %s...)", "_ = append([]byte(nil), (%s)...)", "_ = copy(gbs, %s)", "_ = []byte(%s)", "_ = []rune(%s)",
+	"_ = len(%s)", "_ = %s[0]", "_ = %s[1:]", "_ = %s + \"x\"", "_ = strings.ToUpper(%s)", "_ = fmt.Sprint(%s)", "_ = fmt.Sprintf(%s, 1)", "_ = fmt.Sprint([]interface{}{%s}...)",
+	"_ = strings.Join([]string{%s}, \",\")", "_ = append([]string{}, %s)", "_ = append([]string{}, []string{%s}...)", "if false {\n\t\tpanic(%s)\n\t}", "print(%s)", "println(%s, 1)",
+	"_ = unsafe.Sizeof(%s)", "_ = unsafe.StringData(%s)", "delete(gm, %s)", "_ = gm[%s]", "gm[%s] = 1", "_ = min(%s, \"b\")", "_ = max(\"a\", %s)", "_ = MyStr(%s)",
+	"_ = interface{}(%s)", "_ = any(%s).(string)", "_ = func(a ...string) int { return len(a) }(%s)", "_ = func(a ...string) int { return len(a) }([]string{%s}...)",
+	"_ = map[string]int{%s: 1}", "_ = [...]string{1: %s}", "_ = struct{ s string }{%s}", "_ = &struct{ s string }{s: %s}", "gs = %s", "gs += %s", "var _ fmt.Stringer = Str{}; _ = %s",
+	"switch %s {\n\tcase \"a\":\n\t}", "switch {\n\tcase gs == %s:\n\t}", "for range %s {\n\t}", "for _, c := range []byte(%s) {\n\t\t_ = c\n\t}", "go func(s string) {}(%s)", "defer func(s string) {}(%s)",
+}
+
+// more contexts of the int-valued whole match: the builtin family
+var intBuiltinCtxs = []string{
+	"_ = make([]int, %s)", "_ = make([]int, 1, %s)", "_ = make(map[int]int, %s)", "_ = make(chan int, %s)", "_ = new(int) == &[]int{%s}[0]", "_ = complex(float64(%s), 0)",
+	"_ = min(%s, 2)", "_ = max(1, %s, 3)", "_ = cap(gsl[:%s])", "_ = gsl[%s:]", "_ = gsl[1:%s:%s]", "_ = unsafe.Add(unsafe.Pointer(gp), %s)", "_ = unsafe.Slice(gp, %s)",
+	"_ = unsafe.String((*byte)(unsafe.Pointer(gp)), %s)", "_ = uintptr(%s) + unsafe.Offsetof(gS.a)", "_ = real(complex(float64(%s), 1))", "_ = append(gsl, []int{%s}...)",
+	"_ = append(gsl, 1, %s)", "_ = copy(gsl, []int{%s})", "gsl[%s] = 1", "_ = gs[%s]", "_ = 1 << %s", "_ = MyInt(%s)", "_ = float64(%s)", "_ = string(rune(%s))", "_ = interface{}(%s)",
+	"_ = [](int){%s}", "_ = *(&[]int{%s}[0])", "_ = func() (int, string) { return %s, \"a\" }", "_ = func() (string, int) { return \"a\", %s }", "gi++; _ = %s", "gi <<= %s",
+	"if v := %s; v > 0 {\n\t}", "for i := %s; i < 3; i++ {\n\t}", "switch v := interface{}(%s).(type) {\n\tcase int:\n\t\t_ = v\n\t}", "select {\n\tcase gch <- %s:\n\tdefault:\n\t}",
+	"var _ = [...]func(int){func(int) {}}[0]; takeFn(func(int) {}, %s)", "_ = gfv(%s)", "_ = idG(%s)", "_ = idG[int](%s)", "Str{}.Take(%s)", "(*PS).Take(&PS{}, %s)", "_ = PS.Get(PS{}) + %s",
 }
 
 type shape struct {
@@ -131,6 +202,14 @@ var shapes = []shape{
 	{"comment-nogroup", "cc%d marker", false},
 	{"comment-block", "cd%d: (?P<x>block\\s+comment)", false},
 	{"comment-trailing", "(?P<y>ce%d): trailing (?P<x>\\w+)", false},
+	{"sinkctx-str", "rs%d()", false},
+	{"comment-angle", "ca%d: (?<x>\\w+)", false},
+	{"comment-angle-empty", "cb%d: (?<x>zzz)?tail", false},
+	{"comment-nested", "ca%d: (?P<x>al(?P<z>zz)?pha)", false},
+	{"comment-unnamed+named", "(ca%d): (\\w+) (?P<x>\\w+)", false},
+	{"comment-flags", "(?i)CA%d: (?:alpha|x) (?P<x>BETA)", false},
+	{"comment-alternation", "ca%d: (?:(?P<x>zzz)|alpha)", false},
+	{"comment-angle-alternation", "ca%d: (?:(?<x>zzz)|alpha)", false},
 	{"two:list+expr", "p%d($*x, $y)", true},
 	{"two:expr+list", "p%d($y, $*x)", true},
 	{"two:nil+stmts", "func fa%d() $x { $*y }", true},
@@ -139,10 +218,25 @@ var shapes = []shape{
 	{"two:comment", "cb%d: (?P<x>zzz)?(?P<y>tail)", true},
 }
 
+// the comment shapes that differ from "comment" / "comment-empty" only in the regexp syntax get a subset of the instances
+func liteShape(sh shape) bool {
+	switch sh.name {
+	case "comment-angle", "comment-angle-empty", "comment-nested", "comment-unnamed+named", "comment-flags", "comment-alternation", "comment-angle-alternation":
+		return true
+	}
+	return false
+}
+
+var liteInst = map[string]bool{"Pure": true, "Type.Is:$t": true, "Type.Size:const": true, "Value.Int:const": true, "Text:const": true, "Text:var": true, "Text.Matches": true,
+	"Line:const": true, "Line:var": true, "Node.Is:Expr": true, "Object.Is": true, "Object.IsGlobal": true, "Contains": true, "Contains:var": true, "Filter:type": true,
+	"Node.Parent.Is": true, "SinkType.Is:int": true, "true": true}
+
 func isComment(sh shape) bool { return strings.HasPrefix(sh.name, "comment") }
 
 // noX: shapes whose pattern does not bind $x
-func noX(sh shape) bool { return sh.name == "sinkctx" || sh.name == "comment-nogroup" }
+func noX(sh shape) bool {
+	return sh.name == "sinkctx" || sh.name == "sinkctx-str" || sh.name == "comment-nogroup"
+}
 
 const prelude = `
 func okFilter(ctx *dsl.VarFilterContext) bool {
@@ -270,6 +364,7 @@ type result struct {
 	Where    string `json:"where"`
 	Extra    string `json:"extra,omitempty"`
 	Do       string `json:"do,omitempty"`
+	Site     string `json:"site,omitempty"` // deep sweep: the one probe call the rule matches
 	Trunc    int    `json:"trunc"`
 	GoVer    string `json:"gover"`
 	Reused   bool   `json:"reused"`
@@ -278,6 +373,67 @@ type result struct {
 	Bad      []bad  `json:"bad,omitempty"`
 	Reports  int    `json:"reports"`
 	FirstBad string `json:"first_bad_site,omitempty"`
+}
+
+type ctxT struct {
+	trunc  int
+	gover  string
+	reused bool
+}
+
+var miniImporter types.Importer
+
+// checkMini type-checks a small target with an importer shared between calls (the imported packages are checked once).
+func checkMini(dir string, src []byte) (*hutil.Target, error) {
+	path := filepath.Join(dir, "mini", "target.go")
+	if err := os.MkdirAll(filepath.Dir(path), 0o755); err != nil {
+		return nil, err
+	}
+	if err := os.WriteFile(path, src, 0o644); err != nil {
+		return nil, err
+	}
+	fset := token.NewFileSet()
+	f, err := parser.ParseFile(fset, path, src, parser.ParseComments)
+	if err != nil {
+		return nil, err
+	}
+	if miniImporter == nil {
+		miniImporter = importer.ForCompiler(token.NewFileSet(), "source", nil)
+	}
+	info := hutil.NewInfo()
+	conf := types.Config{Importer: miniImporter, Error: func(error) {}}
+	pkg, err := conf.Check(f.Name.Name, fset, []*ast.File{f}, info)
+	if err != nil {
+		return nil, err
+	}
+	return &hutil.Target{Fset: fset, File: f, Info: info, Pkg: pkg, Src: src, Path: path}, nil
+}
+
+// locate names the probe site at which a rule makes Run panic: the rule (bound to column 0) is run over one mini target
+// per site (the declarations alone first: the probe function declarations are sites of the func-declaration shapes).
+func locate(tmp string, fr filt.Rule, c ctxT) string {
+	hdr := header()
+	try := func(body string) bool {
+		t, err := checkMini(tmp, []byte(hdr+sitesOpen+body+"}\n"))
+		if err != nil {
+			return false
+		}
+		eng, err := filt.Load(t.Fset, filt.RulesFile(prelude, []filt.Rule{fr}))
+		if err != nil {
+			return false
+		}
+		_, _, pmsg := run(eng, t, c.trunc, c.gover, nil)
+		return pmsg != ""
+	}
+	if try("") {
+		return "(the declarations of the probe functions)"
+	}
+	for _, sn := range siteSnippets(0) {
+		if try(sn) {
+			return strings.TrimSpace(sn)
+		}
+	}
+	return ""
 }
 
 type ruleT struct {
@@ -353,7 +509,14 @@ func run(e *ruleguard.Engine, t *hutil.Target, trunc int, gover string, state *r
 func main() {
 	tmp := flag.String("tmp", "", "scratch directory")
 	full := flag.Bool("full", false, "all context combinations for every batch")
+	deep := flag.Bool("deep", false, "child mode: run the deep sweep in this process")
+	deepFrom := flag.Int("deepfrom", 0, "child mode: first unit")
+	deepPer := flag.Int("deepper", -1, "child mode: run the sites of this instance one by one")
 	flag.Parse()
+	if *deep {
+		runDeep(*tmp, *deepPer, *deepFrom)
+		return
+	}
 	enc := json.NewEncoder(os.Stdout)
 	t, err := hutil.CheckTarget(*tmp, "target/target.go", []byte(target()))
 	if err != nil {
@@ -367,6 +530,9 @@ func main() {
 				continue // no $x in that pattern: only the whole-match and file-level predicates apply
 			}
 			if in.needY != sh.hasY {
+				continue
+			}
+			if liteShape(sh) && !liteInst[in.name] {
 				continue
 			}
 			rules = append(rules, ruleT{in: in, sh: sh})
@@ -394,11 +560,6 @@ func main() {
 				rules = append(rules, ruleT{in: inst{name: "Do:" + fn + "+At", ctor: ""}, sh: sh, do: fn, extra: ".At(m[\"x\"])"})
 			}
 		}
-	}
-	type ctxT struct {
-		trunc  int
-		gover  string
-		reused bool
 	}
 	ctxs := []ctxT{{0, "", false}, {-3, "1.18", true}, {4, "", true}}
 	if *full {
@@ -450,14 +611,16 @@ func main() {
 		n, bads, pmsg = run(eng, t, c.trunc, c.gover, st)
 		return
 	}
-	emit := func(r ruleT, c ctxT, n int, bads []bad, pmsg, lerr string) {
+	located := 0
+	emitAt := func(r ruleT, c ctxT, n int, bads []bad, pmsg, lerr, site string) {
 		w := ""
 		if r.in.d != nil {
 			w = r.in.d.Go()
 		}
-		enc.Encode(result{K: "run", Inst: r.in.name, Ctor: r.in.ctor, Shape: r.sh.name, Pattern: r.sh.pattern, Where: w, Extra: r.extra, Do: r.do,
+		enc.Encode(result{K: "run", Inst: r.in.name, Ctor: r.in.ctor, Shape: r.sh.name, Pattern: r.sh.pattern, Where: w, Extra: r.extra, Do: r.do, Site: site,
 			Trunc: c.trunc, GoVer: c.gover, Reused: c.reused, LoadErr: lerr, Panic: pmsg, Bad: bads, Reports: n})
 	}
+	emit := func(r ruleT, c ctxT, n int, bads []bad, pmsg, lerr string) { emitAt(r, c, n, bads, pmsg, lerr, "") }
 	for _, c := range ctxs {
 		for i := 0; i < len(rules); i += W {
 			end := i + W
@@ -475,7 +638,12 @@ func main() {
 			// isolate
 			for _, r := range batch {
 				n1, b1, p1, l1 := runSet([]ruleT{r}, c, true)
-				emit(r, c, n1, b1, p1, l1)
+				where := ""
+				if p1 != "" && located < 6 {
+					located++
+					where = locate(*tmp, mkRule(r, 0), c)
+				}
+				emitAt(r, c, n1, b1, p1, l1, where)
 			}
 		}
 	}
@@ -491,5 +659,7 @@ func main() {
 			enc.Encode(result{K: "render", Inst: "true", Shape: "all", Trunc: tl, GoVer: gv, Reused: c.reused, LoadErr: lerr, Panic: pmsg, Bad: bads, Reports: n})
 		}
 	}
+	// recursive / cyclic / very large types under every type predicate, in child processes
+	spawnDeep(enc, *tmp, 90*time.Second)
 	enc.Encode(map[string]interface{}{"k": "meta", "rules": len(rules), "contexts": len(ctxs), "shapes": len(shapes)})
 }
